@@ -23,6 +23,7 @@ def handle (line : String) : String :=
   | "ucc" :: rest => uccLine (" ".intercalate rest)
   | "xform" :: rest => xformLine (" ".intercalate rest)
   | "fromast" :: rest => fromastLine (" ".intercalate rest)
+  | "c16pred" :: rest => c16predLine (" ".intercalate rest)
   | _ => "bad-request"
 
 /-- verbs that need the driver's schema store (IO) -/
